@@ -577,6 +577,49 @@ func TestCheck(t *testing.T) {
 	})
 	r.Floor("inner_truncations", 300)
 
+	// -- a cipher_suites vector that does not consist of whole 4-byte suites (cut inside a suite, or 1..3 stray bytes
+	// after the last one), every enclosing length consistent: HpkeSymmetricCipherSuite cipher_suites<4..2^16-4> --
+	r.ParallelW("raggedsuites", r.N(8, 80), 1, func(i int, rng *mrand.Rand) {
+		_, cfg, err := ech.NewConfig(uint8(i), []byte(DNSName(rng, 8+rng.IntN(40))))
+		if err != nil {
+			r.Inconclusive("fixture: NewConfig: %v", err)
+			return
+		}
+		contents := cfg[4:]
+		pkLen := int(contents[3])<<8 | int(contents[4])
+		csOff := 5 + pkLen // offset of the length prefix of cipher_suites
+		csLen := int(contents[csOff])<<8 | int(contents[csOff+1])
+		if csLen%4 != 0 || csOff+2+csLen > len(contents) {
+			r.Inconclusive("fixture: NewConfig layout not understood (cipher_suites of %d bytes at %d)", csLen, csOff)
+			return
+		}
+		suites, rest := contents[csOff+2:csOff+2+csLen], contents[csOff+2+csLen:]
+		for n := 1; n <= csLen+3; n++ {
+			if n%4 == 0 {
+				continue
+			}
+			body := append([]byte{}, suites[:min(n, csLen)]...)
+			for len(body) < n {
+				body = append(body, byte(rng.IntN(256)))
+			}
+			nc := append(append([]byte{}, contents[:csOff]...), byte(n>>8), byte(n))
+			nc = append(append(nc, body...), rest...)
+			one := append([]byte{cfg[0], cfg[1], byte(len(nc) >> 8), byte(len(nc))}, nc...)
+			list := append([]byte{byte(len(one) >> 8), byte(len(one))}, one...)
+			c := map[string]any{"cipher_suites_bytes": n, "list": mon.Hex(list)}
+			r.Guard("raggedsuites", i, "robust:ragged-cipher-suites", c, func() {
+				_, lerr := ech.ParseConfigList(list)
+				_, serr := ech.Config(one).Spec()
+				r.Eval(fmt.Sprintf("raggedsuites|%d|%d", i, n))
+				r.Count("ragged_cipher_suite_vectors", 1)
+				if lerr == nil || serr == nil {
+					r.Violate("raggedsuites", i, "robust:ragged-cipher-suites-accepted", fmt.Sprintf("a config whose cipher_suites vector has %d bytes (no whole number of 4-byte suites; every enclosing length consistent) was accepted: ParseConfigList err=%v, Spec err=%v", n, lerr, serr), c)
+				}
+			})
+		}
+	})
+	r.Floor("ragged_cipher_suite_vectors", 60)
+
 	// -- NewConfig --
 	nNew := r.N(512, 60000)
 	r.Parallel("newconfig", nNew, func(i int, rng *mrand.Rand) {
